@@ -7,9 +7,17 @@
    _write_stream_frame / _write_reset_stream_frame / _write_stop_sending_frame calls for any stream in any order,
    stop_stream, with any size budget)
    in which transport parameters never lower a flow-control value the connection already holds
-   ([pguard], RFC 9000 7.4.1).  [gm sid] is the largest MAX_STREAM_DATA value received for the stream. *)
+   ([pguard], RFC 9000 7.4.1).  [gm sid] is the largest MAX_STREAM_DATA value received for the stream.
+
+   Transport parameters exist in two transcriptions (the tie feeds the one the tree contains): [OParams], the function
+   up to the repair of finding C06-F1, needs the guard on its values; [OParamsP], the repaired function, needs it only
+   when it restores remembered parameters ([PTicket]); with 0-RTT accepted ([PAccepted]) [freach] puts NO condition
+   on the values -- the function refuses a lowered value itself (accepted_0rtt_parameters_never_lower) -- so every
+   theorem over [freach] below holds on the repaired tree without a transport-parameter assumption.  Handshake
+   parameters with 0-RTT not accepted ([PRejected]) may lower the remembered limits: [preach] and
+   latest_limits_respected. *)
 From Coq Require Import ZArith List Bool.
-From AQ Require Import lib.Base model.RangeSet model.StreamSend model.FlowSend proofs.StreamSendP proofs.FlowSendP proofs.FlowSendP2.
+From AQ Require Import lib.Base model.RangeSet model.StreamSend model.FlowSend proofs.StreamSendP proofs.FlowSendP proofs.FlowSendP2 proofs.FlowSendP3.
 
 (* at every moment highest_offset(s) <= max_stream_data_remote(s), and that limit is covered by what the
    peer sent: the transport parameter for the stream's kind, or a MAX_STREAM_DATA frame for the stream *)
@@ -100,18 +108,32 @@ Theorem stream_within_limit_lowered_parameters_refuted :
 Proof. exact lowered_parameters_witness. Qed.
 Print Assumptions stream_within_limit_lowered_parameters_refuted.
 
-(* stretch ("data blocked by a limit is sent once the limit is raised"): a stream the loop serves (not blocked,
-   no reset pending, buffer not empty) whose next pending offset is below max_offset = min(connection credit,
-   stream limit) gets a frame at that offset from the next _write_stream_frame call with a positive budget.
-   _partial: that buffer_is_empty is false whenever data is pending is a hypothesis here (see docs/C06.md). *)
-Theorem unblocked_progress_partial : forall c sid ms t start rstop rest,
-  find_strm sid (c_streams c) = Some t -> t_blocked t = false ->
-  s_reset_pending (t_send t) = false -> s_empty (t_send t) = false -> s_reset (t_send t) = None ->
-  s_pending (t_send t) = (start, rstop) :: rest -> start < rstop ->
-  0 < ms -> start < max_offset c t ->
-  exists data fin c', fstep c (OGet sid ms) = (FGet (max_offset c t) (SFrame start data fin), c').
-Proof. exact unblocked_progress_l. Qed.
-Print Assumptions unblocked_progress_partial.
+(* "data blocked by a limit is sent once the limit is raised", full strength for one call of the stream loop: a stream
+   with a legitimate sender history (C10 [reach]) that is not held back by the stream-count limit, was not reset and has
+   something waiting -- a pending range (written and never sent, or declared lost) that starts below max_offset =
+   min(connection credit, stream limit), or, with no range pending, a pending FIN -- gets a frame from the next
+   _write_stream_frame call with a positive size budget: the loop's own guard (reset_pending, is_blocked,
+   buffer_is_empty) lets it through, the frame starts at the sender's next offset, carries at least one byte and ends
+   within max_offset when a range was pending, and is the bare FIN otherwise.  Which stream the loop reaches with
+   which budget is the scheduler's business (docs/C06.md, "fairness"). *)
+Theorem unblocked_progress : forall c sid ms t g,
+  find_strm sid (c_streams c) = Some t -> reach (t_send t) g ->
+  t_blocked t = false -> s_reset (t_send t) = None -> 0 < ms ->
+  has_work (t_send t) ->
+  (forall start rstop rest, s_pending (t_send t) = (start, rstop) :: rest -> start < max_offset c t) ->
+  exists data fin c',
+    fstep c (OGet sid ms) = (FGet (max_offset c t) (SFrame (next_offset (t_send t)) data fin), c') /\
+    (s_pending (t_send t) <> nil -> data <> nil /\ next_offset (t_send t) + Zlen data <= max_offset c t) /\
+    (s_pending (t_send t) = nil -> data = nil /\ fin = true).
+Proof. exact unblocked_progress_full. Qed.
+Print Assumptions unblocked_progress.
+
+(* the invariant that was missing: after EVERY operation sequence from a fresh connection (no guard of any kind),
+   a stream that is not reset and has a pending range or a pending FIN has buffer_is_empty = False *)
+Theorem buffer_flag_tracks_pending : forall cl ops t, In t (c_streams (frun (conn_init cl) ops)) ->
+  s_reset (t_send t) = None -> has_work (t_send t) -> s_empty (t_send t) = false.
+Proof. exact flag_always. Qed.
+Print Assumptions buffer_flag_tracks_pending.
 
 (* the credit counter IS the sum of the highest offsets, after EVERY operation sequence from a fresh connection:
    no parameter guard, no assumption on the delivery outcomes, any interleaving of losses, writes between a loss
@@ -163,3 +185,53 @@ Theorem straddling_frame_witness :
   map (fun t => (t_id t, s_highest (t_send t))) (c_streams c2) = (0, 80) :: (4, 120) :: nil.
 Proof. exact straddle_witness_l. Qed.
 Print Assumptions straddling_frame_witness.
+
+(* ---- the repaired _parse_transport_parameters (repair of finding C06-F1) ---- *)
+
+(* 0-RTT accepted, ANY state and ANY values: the function stores the six limits, none below the value held, or it
+   stops with PROTOCOL_VIOLATION; either way no limit is lowered and nothing but the limits changes *)
+Theorem accepted_0rtt_parameters_never_lower : forall c md bl br un sb su,
+  let r := fstep c (OParamsP PAccepted md bl br un sb su) in
+  (fst r = FOk \/ fst r = FQErr PROTOCOL_VIOLATION) /\
+  sc_le c (snd r) /\ c_max_data c <= c_max_data (snd r) /\
+  c_streams (snd r) = c_streams c /\ c_used (snd r) = c_used c /\
+  (fst r = FOk -> snd r = with_limits c (orz md 0) (orz bl 0) (orz br 0) (orz un 0) (orz sb 0) (orz su 0)).
+Proof. exact accepted_never_lowers_l. Qed.
+Print Assumptions accepted_0rtt_parameters_never_lower.
+
+(* 0-RTT not accepted: the handshake parameters replace the remembered ones, LOWER values included ([preach] = [freach]
+   plus [OParamsP PRejected] with varint values, processed while every stream is locally opened).  Every
+   _write_stream_frame call made afterwards -- in any reachable state -- is for a stream inside the stream-count
+   limit in force, and its max_offset is within the stream's limit, which the peer granted under the parameters in
+   force (or by MAX_STREAM_DATA), and within the connection credit; a frame that carries data ends at or below
+   max_offset.  (A bare FIN and RESET_STREAM carry highest_offset, which still counts discarded 0-RTT bytes: see
+   docs/C06.md, "what the repair leaves".) *)
+Theorem latest_limits_respected : forall c gm sid ms mo o c' t,
+  preach c gm -> find_strm sid (c_streams c) = Some t ->
+  fstep c (OGet sid ms) = (FGet mo o, c') ->
+  mo <= t_msdr t /\ t_msdr t <= granted c gm sid /\
+  mo <= s_highest (t_send t) + c_max_data c - c_used c /\
+  (is_local c sid = true -> sid / 4 < ms_for c sid) /\
+  (forall g off data fin, reach (t_send t) g -> o = SFrame off data fin -> data <> nil -> off + Zlen data <= mo).
+Proof. exact latest_limits_respected_l. Qed.
+Print Assumptions latest_limits_respected.
+
+(* [freach] is contained in [preach] *)
+Theorem freach_in_preach : forall c gm, freach c gm -> preach c gm.
+Proof. exact freach_preach. Qed.
+Print Assumptions freach_in_preach.
+
+(* the scenario of finding C06-F1 under the repaired function (hypotheses above are satisfiable): remembered limit
+   100, 20 bytes sent in 0-RTT, 0-RTT not accepted, the handshake grants 50: the stream is released with limit 50, the
+   lost 20 bytes and 60 new ones are cut into ONE frame that stops at 50, the next call yields nothing; with 0-RTT
+   accepted the same parameters are refused with PROTOCOL_VIOLATION *)
+Theorem repaired_parameters_witness :
+  let c := frun (conn_init true) ops_f1_repaired in
+  guards2 (conn_init true) ops_f1_repaired /\
+  (exists t, find_strm 0 (c_streams c) = Some t /\ t_blocked t = false /\ t_msdr t = 50 /\ s_highest (t_send t) = 20) /\
+  (exists c1, fstep c (OGet 0 1000) = (FGet 50 (SFrame 0 (zeros 50) false), c1) /\
+              fst (fstep c1 (OGet 0 1000)) = FGet 50 SNone) /\
+  fst (fstep (frun (conn_init true) (firstn 3 ops_f1_repaired))
+             (OParamsP PAccepted (Some 1000) (Some 50) (Some 50) (Some 50) (Some 4) (Some 4))) = FQErr PROTOCOL_VIOLATION.
+Proof. exact repaired_witness_l. Qed.
+Print Assumptions repaired_parameters_witness.
